@@ -55,6 +55,34 @@ def member_product():
     return out
 
 
+def spelling_cases():
+    """(pairs of sources that must parse to the same tree, sources that write one type in every position)"""
+    pairs = []
+    names = ["a", "b", "c", "d", "e"]
+    for k in (2, 3, 4, 5):
+        for tracked in ("", "@tracked "):
+            comma = "%squbit %s;" % (tracked, ", ".join(names[:k]))
+            expanded = " ".join("%squbit %s;" % (tracked, n) for n in names[:k])
+            for where, wrap in (("function body", "function main() -> void { %s x(a); }\n"),
+                                ("nested block", "function main() -> void { int i = 0; { %s } echo(i); }\n"),
+                                ("while body", "function main() -> void { int i = 0; while (i < 1) { %s i = i + 1; } }\n"),
+                                ("if branch", "function main() -> void { if (true) { echo(1); } else { %s } }\n"),
+                                ("method body", "class K { public constructor() -> K = default; public function m() -> void { %s } }\nfunction main() -> void { }\n")):
+                pairs.append((wrap % comma, wrap % expanded, "'%s' in a %s" % (comma, where)))
+    prims = ["int", "long", "float", "bit", "boolean", "string", "char"]
+    tys = ["Box<%s>" % p_ for p_ in prims] + ["Box<Base>", "Box<Box<boolean>>", "Box<Box<long>>", "Pair<string, long>", "Pair<long, Box<int>>", "Pair<boolean, boolean>",
+                                             "Box<Pair<int, long>>", "Base", "int[]", "long[]", "Pair<Base, Box<char>>"]
+    decls = ("class Base { public constructor() -> Base = default; }\nclass Box<T> { public T v; public constructor() -> Box<T> = default; }\n"
+             "class Pair<K, V> { public K k; public V w; public constructor() -> Pair<K, V> = default; }\n")
+    cases = []
+    for ty in tys:
+        init = "" if ty.endswith("[]") else " = null"
+        src = (decls + "function f(%s p) -> %s { return p; }\nfunction main() -> void { %s v%s; { %s w%s; } }\nclass Holder { public %s h; public constructor() -> Holder = default; }\n"
+               % (ty, ty, ty, init, ty, init, ty))
+        cases.append((src, ty))
+    return pairs, cases
+
+
 def run(tier, seed):
     t0 = time.time()
     out = vlib.Outcome(PID)
@@ -128,13 +156,43 @@ def run(tier, seed):
         diff = {k: (exp[k], m.get(k)) for k in exp if m.get(k) != exp[k]}
         if diff:
             bad.append(("class member parsed with different attributes %s  [%s]" % (diff, src.split("\n")[0]), {"source": src, "member": m}))
+    # ---- 4. spellings the documentation declares equivalent, and one type written in different syntactic positions
+    eq_pairs, type_cases = spelling_cases()
+    ej = []
+    for a, b, what in eq_pairs:
+        ej.append({"id": len(ej), "stage": "ast", "src": a})
+        ej.append({"id": len(ej), "stage": "ast", "src": b})
+    eres = runner.run_jobs(ej)
+    for k, (a, b, what) in enumerate(eq_pairs):
+        ra, rb = eres[2 * k], eres[2 * k + 1]
+        if ra["status"] != "ok" or rb["status"] != "ok":
+            bad.append(("%s: rejected by the parser (%s / %s)" % (what, ra.get("what", ra["status"]).strip(), rb.get("what", rb["status"]).strip()), {"source": a, "expanded": b}))
+            continue
+        d = astmap.first_diff(rb["ast"], ra["ast"])
+        if d:
+            bad.append(("%s: the two spellings give different trees: %s" % (what, d), {"source": a, "expanded": b}))
+    tj = [{"id": i, "stage": "ast", "src": src} for i, (src, ty) in enumerate(type_cases)]
+    tres = runner.run_jobs(tj)
+    for i, (src, ty) in enumerate(type_cases):
+        r = tres[i]
+        if r["status"] != "ok":
+            bad.append(("type '%s' in a declaration statement / parameter / field / return / new position is rejected: %s" % (ty, r.get("what", r["status"]).strip()), {"source": src}))
+            continue
+        f = r["ast"]["funcs"]
+        seen = {"parameter": f[0]["params"][0]["t"], "return": f[0]["ret"], "local": f[1]["body"][0]["t"], "nested local": f[1]["body"][1]["b"][0]["t"],
+                "field": r["ast"]["classes"][-1]["members"][0].get("t")}
+        ref = seen["parameter"]
+        for where, t in seen.items():
+            if t != ref:
+                bad.append(("type '%s' parsed differently as %s (%s) and as parameter (%s)" % (ty, where, t, ref), {"source": src}))
+                break
     for n, (msg, doc) in enumerate(bad[:8]):
         doc["what"] = msg
         out.violation(msg, doc, "case%d" % n)
     cov = {"states": meta["distinct"], "transitions": meta["generated"],
            "traces_validated_against_impl": 2 * len(trees) + len(progs) + len(prod),
            "expression_trees": len(trees), "expression_renderings_parsed": expr_checked, "programs_round_tripped": len(progs),
-           "class_member_combinations": len(prod), "exhaustive": True,
+           "class_member_combinations": len(prod), "equivalent_spellings": len(eq_pairs), "types_in_every_position": len(type_cases), "exhaustive": True,
            "samples": [{"tree": trees[4000]["tree"], "minimal": " ".join(trees[4000]["min"]), "redundant": " ".join(trees[4000]["red"])}],
            "rule": "Grammar.tla encodes docs/grammar.md (13 levels, left-associative binaries, right-associative '=', prefix - ! ~, postfix call / index / "
                    "member / ++ / --); TLC checks Parse(Render(t)) = t on the specification for every enumerated tree: all 16x16 adjacent operator pairs "
